@@ -68,6 +68,9 @@ pub enum OpK {
     Compile(usize),
     Fail(usize),
     SetCounter(u64),
+    /// a long history: compile program `.0` `.1` times in a row on this thread (fresh
+    /// allocator and symbol map each time); only the last compile is compared
+    Repeat(usize, u32),
 }
 
 #[derive(Serialize, Deserialize, Clone, Debug)]
@@ -117,7 +120,7 @@ pub const FAILERS: [&str; 11] = [
 /// Hand-written programs that are known to be sensitive detectors: their bytes or symbols
 /// move when generated-name numbering, hash order, the integer mode or the macro set changes
 /// (shapes learnt from the defects of §12 and the seeded changes of §13 in DESIGN.md).
-pub const CANARIES: [&str; 19] = [
+pub const CANARIES: [&str; 21] = [
     // several CSE candidates with the same insertion root (numbering / hash order)
     "(mod (X Y) (include *standard-cl-23*) (defun F (A B) (list (sha256 (* A 17 A 19 A) B) (sha256 (* A 17 A 19 A) A) (concat (+ B 1000000 B 2000000 B) A) (concat (+ B 1000000 B 2000000 B) B) (* A 17 A 19 A) (+ B 1000000 B 2000000 B))) (F X Y))",
     "(mod (X Y Z) (include *standard-cl-24*) (defun G (A B C) (if (> A B) (list (* (+ A B) (+ A B)) (- (* B C) (* B C)) (+ (- C A) (- C A))) (list (+ (* B C) (* B C)) (* (- C A) (- C A)) (- (+ A B) (+ A B))))) (G X Y Z))",
@@ -145,6 +148,11 @@ pub const CANARIES: [&str; 19] = [
     // sets have (sensitive to operator-set state)
     "(mod (X) (include *standard-cl-23*) (defun f (A) (+ A (% 1000 7))) (f X))",
     "(mod (X) (include *standard-cl-23*) (defconst K (modpow 2 10 1000)) (+ X K))",
+    // many `(mod ...)` expressions (no helpers: cl23 rejects helpers next to an inner mod),
+    // and a program with `if (not (= ..))` and a helper called with a constant: what
+    // per-thread counters in the cl23 expression optimiser act on and show up in
+    "(mod (X) (include *standard-cl-23*) (c (a (mod (Z) (+ Z 1)) (list X)) (c (a (mod (Z) (+ Z 2)) (list X)) (c (a (mod (Z) (+ Z 3)) (list X)) (c (a (mod (Z) (+ Z 4)) (list X)) (c (a (mod (Z) (+ Z 5)) (list X)) (c (a (mod (Z) (+ Z 6)) (list X)) (c (a (mod (Z) (+ Z 7)) (list X)) (c (a (mod (Z) (+ Z 8)) (list X)) (c (a (mod (Z) (+ Z 9)) (list X)) (c (a (mod (Z) (+ Z 10)) (list X)) (c (a (mod (Z) (+ Z 11)) (list X)) (c (a (mod (Z) (+ Z 12)) (list X)) ())))))))))))))",
+    "(mod (PASSWORD_HASH PASSWORD) (include *standard-cl-23*) (defun sq (N) (* N N)) (if (not (= PASSWORD_HASH (sha256 PASSWORD))) (x \"wrong password\") (list (sq 7) PASSWORD)))",
     // the two programs on which the hash-order dependence of deinline_opt was first seen
     // (prelim/p103.clsp, prelim/p65.clsp): many interacting synthetic let-binding helpers
     "(mod (X Y) (include *standard-cl-23*) (defun f0 (a0_0 a0_1 a0_2) (c (assign v911 a0_0 v346 (c a0_0 (c a0_0 a0_2)) (logand 19 v911)) (c (assign v911 a0_0 v346 (c a0_0 (c a0_0 a0_2)) (logand 19 v911)) a0_2))) (defun f1 (a1_0) a1_0) (defun f2 (a2_0 a2_1 a2_2) (let* ((v907 (let ((v42 a2_0) (v493 (concat (let* ((v313 a2_0)) 19) (logand a2_2 a2_2)))) (let ((v268 a2_2) (v767 (c v493 (c v493 a2_1)))) v493))) (v822 a2_0) (v916 (logior a2_1 (let* ((v97 (- a2_2 a2_2)) (v466 (let ((v698 a2_2) (v498 a2_0) (v353 a2_1)) a2_1)) (v316 (assign v611 a2_1 v741 a2_2 v741))) (let* ((v144 v316) (v139 v316)) 19))))) a2_0)) (defun f3 (a3_0) (let* ((v881 (if (let ((v115 17) (v629 a3_0) (v53 a3_0)) v629) (assign v775 a3_0 v389 a3_0 a3_0) (- a3_0 a3_0))) (v120 (let* ((v675 (* a3_0 a3_0))) (let ((v202 v675) (v127 v675)) v202)))) (let* ((v100 (- v120 v120)) (v574 (logand v120 v120))) v100))) (assign v940 (c Y (c Y (if (let* ((v557 Y) (v197 Y)) v557) (logand X Y) (let* ((v751 X) (v605 Y) (v830 Y)) v605)))) v986 (let* ((v317 (let ((v174 (if Y Y X)) (v728 (logior X X)) (v284 (let ((v459 Y) (v11 X) (v135 Y)) v11))) (if 2 19 v728))) (v617 (f3 (assign v241 X v746 X 10))) (v809 (c (concat 19 X) (c (concat 19 X) (f3 Y))))) v809) v654 (concat (f1 Y) (logand Y (c X (c X Y)))) (assign v413 (concat (if v986 8 v654) (if v654 6 X)) v697 (assign v66 (assign v100 17 v385 Y v165 6 v654) v899 (f3 X) 20) v839 (+ X (if v940 12 v654)) (logior (if v413 v940 Y) (if v839 v413 Y)))))",
@@ -605,6 +613,26 @@ fn thread_body(progs: Arc<Vec<Prog>>, t: ThreadSpec) -> Box<dyn FnOnce(&Actor) +
                     );
                     actor.boundary("failed", c.class);
                 }
+                OpK::Repeat(p, n) => {
+                    let prog = &progs[*p];
+                    for _ in 1..*n {
+                        let mut a = Allocator::new();
+                        let mut s = HashMap::new();
+                        let _ = compile_text_v(
+                            &prog.text,
+                            &prog.name,
+                            &prog.search,
+                            prog.with_opts,
+                            prog.ops_version,
+                            &mut a,
+                            &mut s,
+                            None,
+                        );
+                    }
+                    let mut a = Allocator::new();
+                    let mut s = HashMap::new();
+                    run_compile_op(actor, &progs, *p, &None, &mut a, &mut s, true, false);
+                }
                 OpK::Compile(p) => {
                     if t.reuse_allocator {
                         run_compile_op(
@@ -858,6 +886,29 @@ pub fn generate(rng: &mut Rng, thorough: bool) -> Workload {
             }
         }
     }
+    // a long-history run (one in twenty-five) always contains the pair of canaries made for
+    // it: a cheap program full of `(mod ...)` expressions to repeat, and a probe
+    let long_history_run = rng.chance(1, 25);
+    let mut long_pair: Option<(usize, usize)> = None;
+    if long_history_run {
+        let find = |needle: &str| CANARIES.iter().position(|c| c.contains(needle));
+        if let (Some(l), Some(pr)) = (find("(mod (Z) (+ Z 12))"), find("PASSWORD_HASH")) {
+            for c in [l, pr] {
+                progs.push(Prog {
+                    name: format!("canary{}.clsp", c),
+                    text: CANARIES[c].to_string(),
+                    search: vec![],
+                    with_opts: true,
+                    corpus: false,
+                    files: vec![],
+                    cli: false,
+                    ops_version: None,
+                    direct: None,
+                });
+            }
+            long_pair = Some((progs.len() - 2, progs.len() - 1));
+        }
+    }
     // a dialect twin: the same text under the sibling dialect that shares its stepping
     // (cl23 <-> cl23.1, cl21 <-> strict-cl-21, cl23.1 <-> cl24): state keyed by stepping or
     // left behind by the sibling shows up here
@@ -1017,6 +1068,38 @@ pub fn generate(rng: &mut Rng, thorough: bool) -> Workload {
             );
         }
     }
+    // a long history: one run in twenty-five has a thread that compiles one small program
+    // (a canary or a short generated one) many times in a row
+    if long_history_run {
+        let small: Vec<usize> = (0..progs.len())
+            .filter(|i| !progs[*i].corpus && !progs[*i].cli && progs[*i].text.len() < 1400)
+            .collect();
+        if !small.is_empty() {
+            let (p, n) = match long_pair {
+                Some((l, _)) if rng.chance(2, 3) => (l, *rng.pick(&[60u32, 100, 140])),
+                _ => (*rng.pick(&small), *rng.pick(&[20u32, 60, 120])),
+            };
+            let mut ops = vec![OpSpec {
+                kind: OpK::Repeat(p, n),
+                ambient: None,
+                reenter: None,
+            }];
+            // ... and then everything else, on the same (now old) thread
+            for q in 0..progs.len() {
+                if q != p {
+                    ops.push(OpSpec {
+                        kind: OpK::Compile(q),
+                        ambient: None,
+                        reenter: None,
+                    });
+                }
+            }
+            threads.push(ThreadSpec {
+                ops,
+                reuse_allocator: false,
+            });
+        }
+    }
     let n_threads = threads.len();
     Workload {
         progs,
@@ -1147,7 +1230,7 @@ impl Policy for C05Policy {
                             // takes effect right after this boundary
                             let _ = v;
                         }
-                        if t.preempts_left > 0 && matches!(spec.kind, OpK::Compile(_) | OpK::Fail(_)) {
+                        if t.preempts_left > 0 && matches!(spec.kind, OpK::Compile(_) | OpK::Fail(_) | OpK::Repeat(_, _)) {
                             t.preempts_left -= 1;
                             next_preempt = 1 + tape.below("preempt", self.max_ref_allocs.max(1));
                         }
@@ -1354,6 +1437,13 @@ pub fn run_one(w: &Workload, tape: &mut Tape, entropy_seed: u64) -> Result<RunRe
         .iter()
         .flat_map(|t| t.ops.iter())
         .map(|o| match (&o.kind, &o.reenter) {
+            (OpK::Repeat(p, n), _) => {
+                // repeats are of small programs only; they count at a reduced weight so that
+                // the guard does not cancel exactly the long histories they exist for
+                rp.results.get(*p).and_then(|r| r.as_ref()).map(|r| r.allocs).unwrap_or(0)
+                    * *n as u64
+                    / 8
+            }
             (OpK::Compile(p), re) => {
                 let own = rp.results.get(*p).and_then(|r| r.as_ref()).map(|r| r.allocs).unwrap_or(0);
                 let nested = match re {
@@ -1477,9 +1567,9 @@ fn renumber_prog(w: &Workload, drop: usize) -> Workload {
     let mut c = w.clone();
     c.progs.remove(drop);
     for t in c.threads.iter_mut() {
-        t.ops.retain(|o| !matches!(o.kind, OpK::Compile(p) if p == drop));
+        t.ops.retain(|o| !matches!(o.kind, OpK::Compile(p) | OpK::Repeat(p, _) if p == drop));
         for o in t.ops.iter_mut() {
-            if let OpK::Compile(p) = &mut o.kind {
+            if let OpK::Compile(p) | OpK::Repeat(p, _) = &mut o.kind {
                 if *p > drop {
                     *p -= 1;
                 }
@@ -1560,6 +1650,19 @@ impl Prop for C05 {
                     let mut c = w.clone();
                     c.threads[ti].ops[oi].reenter = None;
                     out.push(c);
+                }
+                if let OpK::Repeat(p, n) = o.kind {
+                    for nn in [1u32, n / 2, n - 1] {
+                        if nn >= 1 && nn < n {
+                            let mut c = w.clone();
+                            c.threads[ti].ops[oi].kind = if nn == 1 {
+                                OpK::Compile(p)
+                            } else {
+                                OpK::Repeat(p, nn)
+                            };
+                            out.push(c);
+                        }
+                    }
                 }
                 if let OpK::SetCounter(v) = o.kind {
                     for nv in [9u64, 99, 1, v / 2] {
